@@ -650,7 +650,7 @@ def _worker(item):
 
 
 def main(tier: str) -> int:
-    run = common.Run(PROP, tier)
+    run = common.Run(PROP, tier, level='fault_enumeration')
     n_mutants = 20000 if tier == 'quick' else 500000
     groups = n_mutants // PER_GROUP
     items = [('canary', d, 'str') for d in CANARY_OK + CANARY_DEEP] + [('fixed',)]
